@@ -19,6 +19,7 @@ package concurrent
 
 import (
 	"context"
+	"errors"
 	"sync"
 	"time"
 
@@ -31,6 +32,13 @@ import (
 )
 
 //go:generate mockgen -source=./pool.go -destination=./pool_mock.go -package=concurrent
+
+var (
+	// errPoolStopped is reported to the submitter of a task when the pool has been stopped.
+	errPoolStopped = errors.New("task is rejected, pool is stopped")
+	// errTaskRejected is reported to the submitter of a task which is rejected.
+	errTaskRejected = errors.New("task is rejected")
+)
 
 const (
 	// size of the queue that workers register their availability to the dispatcher.
@@ -127,14 +135,30 @@ func NewPool(name string, maxWorkers int, idleTimeout time.Duration, statistics 
 }
 
 func (p *workerPool) Submit(ctx context.Context, task *Task) {
-	if task.handle == nil || p.Stopped() {
+	if task.handle == nil {
+		return
+	}
+	if p.Stopped() {
+		p.reject(task, errPoolStopped)
 		return
 	}
 	select {
 	case <-ctx.Done():
 		p.statistics.TasksRejected.Incr()
+		p.reject(task, ctx.Err())
 		return
 	case p.tasks <- task:
+	}
+}
+
+// reject tells the submitter that the task will never be executed,
+// otherwise who waits for the task's completion waits forever.
+func (p *workerPool) reject(task *Task, err error) {
+	if task.panicHandle != nil {
+		if err == nil {
+			err = errTaskRejected
+		}
+		task.panicHandle(err)
 	}
 }
 
